@@ -182,6 +182,11 @@ def main():
             continue          # full update / toggle are covered on the other graphs in the quick tier
         for fn in ("check_update_all", "check_toggle_and_state") + (("check_restore",) if chk.tier != "quick" and NC[g] <= 4 else ()):
             conds.append(Cond("vf.ch.h_c01", fn, f"[graph {g}] {OPS[fn]}; the cache invariant is preserved", timeout_s=to, env={"GRAPH": g}, signature=f"{g}:{fn}"))
+    # a node that hands an argument through unchanged (recomputed value identical, as an object, to the cached one)
+    for a in (0, 1):
+        conds.append(Cond("vf.ch.h_c01", "check_assign", f"[graph pass, input 0, auto-update {'on' if a else 'off'}] {OPS['check_assign']}; the cache invariant is preserved", timeout_s=to,
+                          env={"GRAPH": "pass", "TGT": "0", "AUTO": str(a)}, signature="pass:check_assign"))
+    conds.append(Cond("vf.ch.h_c01", "check_update_all", f"[graph pass] {OPS['check_update_all']}; the cache invariant is preserved", timeout_s=to, env={"GRAPH": "pass"}, signature="pass:check_update_all"))
     run_conditions(chk, conds)
     if not os.environ.get("VERIF_ONLY") or os.environ.get("VERIF_ONLY", "").startswith("raiser"):
         chk.guarded("raiser", "assignment whose auto-update raises (Engine C)", raising_assignment, chk)
@@ -195,7 +200,7 @@ def main():
     chk.bounds += ["graphs of <= 10 nodes; node values unbounded symbolic integers, outdated flags and auto-update symbolic; ONE operation from an arbitrary invariant state (any finite history by induction)",
                    "integer-linear node functions (a stale value differs from the fresh one for some input)"]
     chk.enumerated += [f"graph {g}: " + {"chain": "chain through a transient calculation", "diamond": "two inputs sharing an intermediate calculation", "dist": "strong variables with distributions, value proxies, model-level totals",
-                                         "weak": "weak variable (computed value) with a distribution: `at` edge to a calculation", "dist2": "observed strong variable with a distribution (value proxy), derived variable, model totals"}[g] for g in graphs]
+                                         "weak": "weak variable (computed value) with a distribution: `at` edge to a calculation", "dist2": "observed strong variable with a distribution (value proxy), derived variable, model totals"}[g] for g in graphs] + ["graph pass: a node handing an argument through unchanged feeds a node that also reads the assigned input"]
     chk.assume("invariant: an up-to-date caching node holds f(current inputs) and all its caching ancestors (through transient nodes) are up to date", "outdatedness only ever arises from assignments, so 'evaluated only if outdated or downstream of the assigned node' is the property's 'only if an ancestor was assigned since'",
                "non-integer values, node functions that raise, and LieselInterface's flag clearing (C03/C09) are outside")
     return chk.finish(technique=TECH)
